@@ -33,6 +33,7 @@ func c07Spec() *histSpec {
 	kk := zn.Str{Val: "K"}
 	sp := &histSpec{
 		ID:       "C07",
+		Blind:    true,
 		ObjProps: []string{"P", "N"},
 		Prelude: []zn.Stmt{
 			zn.Class{Name: "型", Props: []zn.Prop{{Name: "P", Val: zn.List{Items: []zn.Expr{one}}}, {Name: "N", Val: zn.Num{Lit: "0"}}},
